@@ -130,6 +130,10 @@ func resultShapes(quick bool) []shape {
 		{"error,A", []reflect.Type{tyErr, tyA}, false},
 		{"A,error,B", []reflect.Type{tyA, tyErr, tyB}, false},
 		{"A,A", []reflect.Type{tyA, tyA}, false},
+		// results whose type implements error but cannot be nil (the zero value is a failure)
+		{"A,EI", []reflect.Type{tyA, reflect.TypeOf(u.EI(0))}, false},
+		{"ES,A", []reflect.Type{reflect.TypeOf(u.ES{}), tyA}, false},
+		{"*ES", []reflect.Type{reflect.TypeOf(&u.ES{})}, false},
 		{"*struct{}", []reflect.Type{reflect.PtrTo(st())}, false},
 		{"struct{X int}", []reflect.Type{st(sf("X", tyInt, ""))}, false},
 		{"[]A", []reflect.Type{reflect.SliceOf(tyA)}, false},
